@@ -1368,3 +1368,77 @@ package ion
 //@ ensures[C07] old(t.err) == nil && err != nil && old(specCtxTop(t.ctx.arr)) != ctxAtTopLevel ==> t.err == err && t.state == trsDone
 //@ ensures[C08] err == nil ==> len(t.ctx.arr) == old(len(t.ctx.arr))-1 && !t.eof && t.valueType == NoType && t.value == nil && txInv(t)
 //@ safe[C06]
+
+// ---------------------------------------------------------------------------
+// unmarshal.go: a value is stored only after the guard that says it fits (C17). The Reader
+// is seen through its interface contract: observers are pure, an accessor of a non-null
+// value of its own type returns a non-nil pointer.
+
+//@ interface Reader.IsNull
+//@ pure
+//@ interface Reader.Type
+//@ pure
+//@ interface Reader.Err
+//@ pure
+//@ interface Reader.Int64Value
+//@ pure
+//@ ensures err == nil && !recv.IsNull() ==> result != nil
+//@ interface Reader.BigIntValue
+//@ pure
+//@ ensures err == nil && !recv.IsNull() ==> result != nil
+//@ interface Reader.FloatValue
+//@ pure
+//@ ensures err == nil && !recv.IsNull() ==> result != nil
+//@ interface Reader.SymbolValue
+//@ pure
+//@ ensures err == nil && !recv.IsNull() ==> result != nil
+//@ interface Reader.StringValue
+//@ pure
+//@ ensures err == nil && !recv.IsNull() ==> result != nil
+
+//@ func (*Decoder).decodeIntTo
+//@ split returns
+//@ requires d.r != nil && !d.r.IsNull()
+//@ modifies *
+//@ atcall[C13,C17] (reflect.Value).SetInt :: reflect.Value, int64 :: !a0.OverflowInt(a1) && a1 == *specInt64Of(d.r)
+//@ atcall[C13,C17] (reflect.Value).SetUint :: reflect.Value, uint64 :: !a0.OverflowUint(a1) &&
+//@    ((specInt64Err(d.r) == nil && *specInt64Of(d.r) >= 0 && a1 == uint64(*specInt64Of(d.r))) ||
+//@     (specBigErr(d.r) == nil && specBigOf(d.r).IsUint64() && a1 == specBigOf(d.r).Uint64()))
+//@ ensures[C17] v.Kind() == reflect.Bool || v.Kind() == reflect.String || v.Kind() == reflect.Float32 || v.Kind() == reflect.Float64 || v.Kind() == reflect.Slice || v.Kind() == reflect.Map ==> err != nil
+//@ safe[C06,C17]
+
+//@ func (*Decoder).decodeFloatTo
+//@ split returns
+//@ requires d.r != nil && !d.r.IsNull()
+//@ modifies *
+//@ atcall[C13,C17] (reflect.Value).SetFloat :: reflect.Value, float64 :: !a0.OverflowFloat(a1)
+//@ safe[C06,C17]
+
+//@ func (*Decoder).decodeSymbolTo
+//@ split returns
+//@ requires d.r != nil && !d.r.IsNull()
+//@ modifies *
+//@ safe[C06,C17]
+
+//@ func (*Decoder).decodeStringTo
+//@ split returns
+//@ requires d.r != nil && !d.r.IsNull()
+//@ modifies *
+//@ safe[C06,C17]
+
+//@ func (*Decoder).decodeToStructWithAnnotation
+//@ trusted thin: called by contract, nothing assumed but termination (reflection-heavy, not under contract)
+//@ modifies *
+
+//@ func (*Decoder).attachAnnotations
+//@ trusted thin: called by contract, nothing assumed but termination (reflection-heavy, not under contract)
+//@ modifies *
+
+//@ func (*Decoder).decodeInt
+//@ trusted thin: called by contract, nothing assumed but termination (reflection-heavy, not under contract)
+//@ modifies *
+
+//@ func ParseDecimal
+//@ trusted thin: assumed to return a decimal or an error (text parsing not under contract)
+//@ modifies nothing
+//@ ensures err == nil ==> result != nil
